@@ -47,8 +47,31 @@ macro_rules! arg { (own, $e:expr) => { $e }; (mutref, $e:expr) => { &mut $e }; }
 macro_rules! getv { (own, $e:expr) => { $e }; (mutref, $e:expr) => { $e.clone() }; }
 macro_rules! gete { (own, $e:expr) => { $e }; (mutref, $e:expr) => { *$e }; }
 
+macro_rules! mk_subject {
+  (plain, $init:expr) => {{ let _ = $init; Subj::default() }};
+  (behavior, $init:expr) => { Subj::new($init.expect("behavior needs an initial value")) };
+}
+macro_rules! do_retain {
+  (plain, $ctx:expr) => { $ctx.subject.clone().retain() };
+  (behavior, $ctx:expr) => { panic!("BehaviorSubject has no retain()") };
+}
+macro_rules! do_next_by {
+  (plain, $ctx:expr, $a:expr) => { panic!("next_by on a plain subject") };
+  (behavior, $ctx:expr, $a:expr) => {{
+    let f = Fn1::parse(&$a[0]);
+    $ctx.subject.clone().next_by(move |v| f.apply(&v));
+  }};
+}
+macro_rules! do_peek {
+  (plain, $ctx:expr) => { panic!("peek on a plain subject") };
+  (behavior, $ctx:expr) => {{
+    let v = $ctx.subject.peek();
+    $ctx.log.lock().unwrap().push(Obs::Peeked(v));
+  }};
+}
+
 macro_rules! subject_runner {
-  ($m:ident, $subj:ty, $iref:tt, $eref:tt) => {
+  ($m:ident, $subj:ty, $iref:tt, $eref:tt, $kind:tt) => {
     pub mod $m {
       use super::*;
       use rxrust::prelude::*;
@@ -103,10 +126,10 @@ macro_rules! subject_runner {
       unsafe impl Send for Ctx {}
       unsafe impl Sync for Ctx {}
 
-      pub fn run(ops: &[Sexp]) -> String {
+      pub fn run(init: Option<Val>, ops: &[Sexp]) -> String {
         let ctx = Arc::new(Ctx {
           log: Log::default(),
-          subject: Subj::default(),
+          subject: mk_subject!($kind, init),
           subs: Mutex::new(vec![]),
           inside: Mutex::new(None),
         });
@@ -142,7 +165,9 @@ macro_rules! subject_runner {
             "clone" => {
               let _ = ctx.subject.clone();
             }
-            "retain" => ctx.subject.clone().retain(),
+            "retain" => do_retain!($kind, ctx),
+            "next_by" => do_next_by!($kind, ctx, a),
+            "peek" => do_peek!($kind, ctx),
             "unsub_subject" => ctx.subject.clone().unsubscribe(),
             "len" => {
               let n = ctx.subject.len();
@@ -179,24 +204,34 @@ macro_rules! subject_runner {
   };
 }
 
-subject_runner!(local, Subject<'static, Val, i64>, own, own);
-subject_runner!(threads, SubjectThreads<Val, i64>, own, own);
-subject_runner!(mr_item, MutRefItemSubject<'static, Val, i64>, mutref, own);
-subject_runner!(mr_err, MutRefErrSubject<'static, Val, i64>, own, mutref);
-subject_runner!(mr_both, MutRefItemErrSubject<'static, Val, i64>, mutref, mutref);
+subject_runner!(local, Subject<'static, Val, i64>, own, own, plain);
+subject_runner!(threads, SubjectThreads<Val, i64>, own, own, plain);
+subject_runner!(mr_item, MutRefItemSubject<'static, Val, i64>, mutref, own, plain);
+subject_runner!(mr_err, MutRefErrSubject<'static, Val, i64>, own, mutref, plain);
+subject_runner!(mr_both, MutRefItemErrSubject<'static, Val, i64>, mutref, mutref, plain);
+subject_runner!(beh_local, BehaviorSubject<Val, Subject<'static, Val, i64>>, own, own, behavior);
+subject_runner!(beh_threads, BehaviorSubject<Val, SubjectThreads<Val, i64>>, own, own, behavior);
 
 /// (subject VARIANT (ops OP...))
 pub fn run_subject(body: &[Sexp]) -> String {
   let ops = body[1].args();
   match body[0].atom() {
-    "local" => local::run(ops),
-    "threads" => threads::run(ops),
-    "mr_item" => mr_item::run(ops),
-    "mr_err" => mr_err::run(ops),
-    "mr_both" => mr_both::run(ops),
+    "local" => local::run(None, ops),
+    "threads" => threads::run(None, ops),
+    "mr_item" => mr_item::run(None, ops),
+    "mr_err" => mr_err::run(None, ops),
+    "mr_both" => mr_both::run(None, ops),
     v => panic!("bad subject variant {v}"),
   }
 }
 
-#[allow(dead_code)]
-fn _unused(_: Fn1) {}
+/// (behavior VARIANT INIT (ops OP...))
+pub fn run_behavior(body: &[Sexp]) -> String {
+  let init = Some(Val::parse(&body[1]));
+  let ops = body[2].args();
+  match body[0].atom() {
+    "local" => beh_local::run(init, ops),
+    "threads" => beh_threads::run(init, ops),
+    v => panic!("bad behavior variant {v}"),
+  }
+}
